@@ -130,6 +130,14 @@ def run(ctx):
         ctx.violation(fp, f"recorded history: {short(shrink({k: e[k] for k in e if k not in ('id',)}), 500)}; "
                           f"the specification disagrees on {clause}",
                       {"kind": "parser-history", "history": hist})
+    # (4) the parser calls the repository's own tests make (recorded at their return), judged by the same trace specification
+    from .. import repotests
+    bad = ctx.validate_trace("Trace_SpParser", repotests.parser_histories(ctx), "repo-tests")
+    for i, clause in sorted(bad.items()):
+        hist = ctx.trace_history(i)
+        ctx.violation(f"parser.parse/{clause}/mode=repo-test",
+                      f"parser call made by {hist[0].get('test')}: {short(shrink(hist[-1]), 500)}; the specification disagrees on {clause}",
+                      {"kind": "parser-history", "history": hist})
     ctx.exhaustive = True
     ctx.extra["exhaustive_note"] = ("every fragmentation / interleaving of the listed bounded streams with at most 3 pending "
                                     "chunks; random histories beyond")
